@@ -230,15 +230,19 @@ CHECKS["C14"] = dict(
     technique="Coq proofs of swizzle / trimming primitives + per-call enumeration oracle on the recorded inferred domains",
     ref="DESIGN.md §3 C14")
 CHECKS["C15"] = dict(
-    text="PARTIAL (frequency of dist constraints). Theorems (Coq, closed) counting the equally likely draws: distselect / "
-         "randselect select index i for exactly weight_i of the total draws, never a zero-weight entry, always a valid index; the "
-         "target entry of a dist constraint is chosen likewise among the non-zero weights. Tie: exhaustive — for every weight vector "
-         "up to length 4/5 with entries 0..4/6 every value the draw can return is substituted into the real distselect and "
-         "randselect and compared with the model and with the counting specification inside Coq.",
-    note="Trusted: Coq kernel, harness, CPython's generator (modelled as a uniform draw). The rewrite of dist constraints into "
-         "`in` + zero-weight exclusions is exercised through the solver harness only when dist statements are generated (not yet "
-         "in the quick tier).",
-    technique="Coq counting proof + exhaustive draw substitution against the real helpers",
+    text="Theorems (Coq, closed): the per-call rewrite of a dist constraint (membership in all entries + exclusion of every "
+         "zero-weight entry, Rand/Dist.v) holds iff the value lies in some listed entry and in no entry whose weight is zero, the "
+         "entry it lies in has a non-zero weight, and with all weights zero it cannot hold; counting the equally likely draws, "
+         "the target entry of a dist and the index returned by distselect / randselect are chosen for exactly weight_i of the "
+         "total draws, never a zero-weight entry, always a valid index. Ties: (1) classes with a dist (values, ranges, entries "
+         "outside the type, overlaps, zero weights, a weight in a non-random field) plus windows / relations: per call the rewrite "
+         "is compared with the solver transcript and values / outcome are judged by enumeration in Coq; (2) frequencies of an "
+         "otherwise unconstrained dist per entry and per value of a range against weight / total with exact two-sided binomial "
+         "tails (1e-7); (3) exhaustive draw substitution into the real distselect / randselect for every weight vector up to "
+         "length 4/5 with entries 0..4/6.",
+    note="Trusted: Coq kernel, harness, CPython's generator (modelled as a uniform draw; the uniformity inside a chosen range and "
+         "the weight / total frequencies of the real call are examined statistically, not proved).",
+    technique="Coq proofs (rewrite semantics, counting) + per-call transcript / enumeration correspondence + exact-tail frequency tests + exhaustive draw substitution",
     ref="DESIGN.md §3 C15")
 CHECKS["C20"] = dict(
     text="PARTIAL (distribution). Theorems (Coq, closed): solve_order declarations make every after-field depend on every "
